@@ -184,11 +184,11 @@ Qed.
 Hypothesis wfp : wf_prog p.
 
 (* a Clean memo (in a state satisfying the invariant) holds its denotational value *)
-Theorem clean_memo_eq_spec s : Inv0 p s -> uf_prog ->
+Theorem clean_memo_eq_spec s : Inv0 p s -> uf_prog -> exact_prog p ->
   forall j, memob p j = true -> st (getn s j) = Clean ->
   exists v, cache (getn s j) = Some v /\ spec s j = Some v.
 Proof.
-  intros I Huf j. induction j as [j IH] using lt_wf_ind. intros Hm Hc.
+  intros I Huf Hex j. induction j as [j IH] using lt_wf_ind. intros Hm Hc.
   destruct (inv_rest _ _ _ _ I j (fun x => x)) as (R1 & R2 & R3 & R4 & _).
   destruct (memob_decl p j Hm) as (cm & e & Hd).
   unfold uncached_ok, needs_cur, needs_clean in *. rewrite Hd in *. cbn [needs_cur_n needs_clean_n] in *.
@@ -200,7 +200,7 @@ Proof.
   { intros x vx Hx.
     assert (Hxj : (x < j)%nat).
     { eapply wf_srclt; [apply I|]. rewrite R1. apply in_tracked_of; eauto. }
-    assert (Hcx : cur p s x = vx) by (apply R3; auto; split; auto; congruence).
+    assert (Hcx : cur p s x = vx) by (apply (eqv_exact p x _ _ Hex); apply R3; auto; split; auto; congruence).
     destruct (decl_of p x) eqn:Hdx; auto.
     - unfold cur in Hcx. rewrite Hdx in Hcx. exact Hcx.
     - assert (Hmx : memob p x = true) by (unfold memob; rewrite Hdx; auto).
@@ -238,19 +238,19 @@ Proof.
   unfold uncached_ok in R2. rewrite Hd in R2. destruct R2 as [_ R2]. auto.
 Qed.
 
-(* [read_eq_spec]: without untracked reads, the value read is the denotational value of the memo
-   over the current values of the signals *)
+(* [read_eq_spec]: without untracked reads and without comparators coarser than equality, the
+   value read is the denotational value of the memo over the current values of the signals *)
 Theorem read_eq_spec : forall ops n s' v,
-  uf_prog -> wf_ops p ops -> (n < length p)%nat -> memob p n = true ->
+  uf_prog -> exact_prog p -> wf_ops p ops -> (n < length p)%nat -> memob p n = true ->
   read_top p n (run_fixed p ops) = (s', v) ->
   spec s' n = Some v /\ (forall i, sval (getn s' i) = sval (getn (run_fixed p ops) i)).
 Proof.
-  intros ops n s' v Huf Hw Hn Hm Hr.
+  intros ops n s' v Huf Hex Hw Hn Hm Hr.
   assert (He : effb p n = false).
   { unfold effb, memob in *. destruct (decl_of p n); congruence. }
   destruct (read_consistent_cone p wfp nsf ops n s' v Hw Hn He Hr) as (I' & Hsv & Hmm & _).
   destruct (Hmm Hm) as (Hc & Hca & _).
-  destruct (clean_memo_eq_spec s' I' Huf n Hm Hc) as (w & Hw' & Hs). split; auto. congruence.
+  destruct (clean_memo_eq_spec s' I' Huf Hex n Hm Hc) as (w & Hw' & Hs). split; auto. congruence.
 Qed.
 
 End P.
@@ -266,14 +266,15 @@ Definition p_dia_u : prog :=
    DMemo CNe (Ite (Rd 2%nat) (Add (Untr (Rd 1%nat)) (Rd 2%nat)) (Const 0))].
 Definition ops_dia : list op := [ORead 3%nat; OWrite 0%nat 4; ORead 1%nat; OWrite 0%nat 7].
 
-Example p_dia_wf : wf_prog p_dia /\ pure_effects p_dia /\ uf_prog p_dia /\ wf_ops p_dia ops_dia.
+Example p_dia_wf : wf_prog p_dia /\ pure_effects p_dia /\ uf_prog p_dia /\ wf_ops p_dia ops_dia /\ exact_prog p_dia.
 Proof.
-  split; [|split; [|split]].
+  split; [|split; [|split; [|split]]].
   - intros i Hi. do 4 (destruct i as [|i]; [cbn; repeat split; auto; lia|]). cbn in Hi. lia.
   - intros i k b h. do 4 (destruct i as [|i]; [cbn; intros E; inversion E|]).
     unfold decl_of. rewrite nth_overflow by (cbn; lia). discriminate.
   - intros i. do 4 (destruct i as [|i]; [cbn; auto|]). unfold decl_of. rewrite nth_overflow by (cbn; lia). exact I.
   - repeat constructor.
+  - intros i e. do 4 (destruct i as [|i]; [cbn; discriminate|]). unfold decl_of. rewrite nth_overflow by (cbn; lia). discriminate.
 Qed.
 (* the read returns 21 = 7 + 7 + 7, which is the replay of the body over the log and the spec *)
 Example p_dia_read :
@@ -299,4 +300,19 @@ Example p_dia_u_read :
   rlog (getn (fst r) 3%nat) = [(2%nat, 1, true); (1%nat, 2, false); (2%nat, 1, true)] /\
   replay_body p_dia_u 3%nat (Ite (Rd 2%nat) (Add (Untr (Rd 1%nat)) (Rd 2%nat)) (Const 0))
               (rlog (getn (fst r) 3%nat)) = Some 3.
+Proof. vm_compute. auto. Qed.
+
+(* a comparator coarser than equality (new_with_compare: "changed" iff the parity differs):
+   a = 1, b = CPar-memo(a), c = memo(b + 0).  After a := 3 the memo b itself holds the new
+   value 3 (a read of b returns what recomputing it gives), its comparator reports no change,
+   so c is not recomputed: it keeps 1, the replay of its body over a log whose entry for b shows
+   1, a value b's comparator does not tell from b's present value *)
+Definition p_par : prog :=
+  [DSig false 1; DMemo CPar (Rd 0%nat); DMemo CNe (Add (Rd 1%nat) (Const 0))].
+Definition ops_par : list op := [ORead 2%nat; OWrite 0%nat 3].
+Example p_par_read :
+  let r := read_top p_par 2%nat (run_fixed p_par ops_par) in
+  snd r = 1 /\ cache (getn (fst r) 1%nat) = Some 3 /\
+  rlog (getn (fst r) 2%nat) = [(1%nat, 1, true)] /\ eqv p_par 1%nat 3 1 /\
+  snd (read_top p_par 1%nat (run_fixed p_par ops_par)) = 3.
 Proof. vm_compute. auto. Qed.
